@@ -80,7 +80,7 @@ def digest(client, datastore=None):
         for cid in ('w', 'w2', 'c'):
             try:
                 ops.append([cid, len(datastore.list_suggestion_operations(name, cid))])
-            except KeyError:
+            except Exception:  # noqa: BLE001 - NotFoundError
                 ops.append([cid, 0])
         es = []
         for tid in (1, 2, 99):
@@ -88,7 +88,7 @@ def digest(client, datastore=None):
                 datastore.get_early_stopping_operation(
                     '%s/operations/earlystopping/%s/%d' % (name.split('/studies/')[0], name.split('/studies/')[1], tid))
                 es.append(tid)
-            except KeyError:
+            except Exception:  # noqa: BLE001 - NotFoundError
                 pass
         out['suggestion_ops'], out['early_stopping_ops'] = ops, es
     return out
@@ -104,19 +104,25 @@ def build(case, label):
     name = 'owners/%s/studies/%s' % (owner, sid)
     if 'bad_study_name' in state:
         name = 'this is not a study name'
-    if 'missing_study' in state or 'bad_study_name' in state:
+    if 'missing_owner' in state:
+        owner = 'nobody%d' % n
+        name = 'owners/%s/studies/%s' % (owner, sid)
+    if 'missing_study' in state or 'bad_study_name' in state or 'missing_owner' in state:
         study = clients.Study(vizier_client.VizierClient(name, 'c'))
         trial_id, trial = 99, None
     else:
         study = clients.Study.from_study_config(sc, owner=owner, study_id=sid)
-        trial = study.suggest(count=1, client_id='w')[0]
+        try:
+            trial = study.suggest(count=1, client_id='w')[0]
+        except Exception:  # noqa: BLE001 - a broken SuggestTrials must not hide the call under test
+            trial = study.request(vz.TrialSuggestion({'w': 0.75}))
         trial_id = trial.id
         if 'immutable_trial' in state:
             if case.get('variant') == 'succeeded':
                 trial.complete(M)
             else:
                 trial.complete(infeasible_reason='no')          # INFEASIBLE, no measurement at all
-        if 'missing_trial' in state or 'metadata_missing_trial' in state:
+        if 'missing_trial' in state:
             trial_id = 99
         if 'immutable_study' in state:
             study.set_state(vz.StudyState.ABORTED)
@@ -169,7 +175,7 @@ def build(case, label):
         'VizierClient.get_study_state': lambda: client.get_study_state(),
         'VizierClient.set_study_state': lambda: client.set_study_state(vz.StudyState.COMPLETED),
         'VizierClient.update_metadata': lambda: client.update_metadata(
-            vz.MetadataDelta(on_trials={trial_id: md}) if 'metadata_missing_trial' in state else vz.MetadataDelta(on_study=md)),
+            vz.MetadataDelta(on_trials={trial_id: md}) if case.get('variant') == 'on_trial' else vz.MetadataDelta(on_study=md)),
         'VizierClient.study_resource_name': lambda: client.study_resource_name,
         'create_or_load_study': lambda: vizier_client.create_or_load_study(owner, 'c', sid, sc),
     }
